@@ -1615,6 +1615,10 @@ Pointset_Powerset<PSET>::ascii_load(std::istream& s) {
       return false;
     }
     new_x.add_disjunct(ph);
+    // The disjunct just added is a copy of `ph', and a copy need not
+    // preserve the parts that are not up-to-date: keep `ph' itself,
+    // so that the loaded powerset dumps exactly as the original one.
+    swap(new_x.sequence.back().pointset(), ph);
   }
   swap(x, new_x);
 
